@@ -313,7 +313,10 @@ func (e *kvElection) verifyLeadershipAfterReconnect() {
 	// Resume heartbeat loop if it was stopped
 	// Note: Heartbeat loop should resume automatically, but we verify
 	// Update status to Connected after successful verification
-	if e.connectionMonitor != nil {
+	// Only when no disconnect arrived while the verification was running: the
+	// grace timer armed by that disconnect checks for DISCONNECTED when it
+	// fires, and overwriting the status here would disarm it for good.
+	if e.connectionMonitor != nil && e.connectionMonitor.Status() == ConnectionStatusReconnected {
 		e.connectionMonitor.SetStatus(ConnectionStatusConnected)
 		// Update connection status metric
 		if e.cfg.Metrics != nil {
